@@ -98,8 +98,10 @@ def check_euler(case):
     f = G.oracle_rates(spec, yq, [G.exact(rx["k"]) for rx in base["rxns"]])
     ub = elemental_bounds(comp, yq)
     # h >= 0 up to rounding: a state sitting exactly on its bound gives (ub - y)/f = -1e-17-ish in floating point.
-    # T = shortest characteristic time max(y_i, ub_i)/|f_i| (capped at 1); h >= -1e-9*T is accepted.
-    T = min([1.0] + [float(max(yq[s], ub[s] if ub[s] != float("inf") else yq[s]) / abs(f[s])) for s in names if f[s] != 0])
+    # T = shortest POSITIVE characteristic time max(y_i, ub_i)/|f_i| (capped at 1); h >= -1e-9*T is accepted.  (A species with y_i = 0 and no finite
+    # bound -- a bare charge carrier such as e- -- has scale 0 and contributes -0/f or inf, both exact: it must not set the tolerance to 0; it did
+    # until round 6, and the thorough tier with seed 2 then reported h = -2.3e-16 for a state sitting on the hydrogen bound.)
+    T = min([1.0] + [t for t in (float(max(yq[s], ub[s] if ub[s] != float("inf") else yq[s]) / abs(f[s])) for s in names if f[s] != 0) if t > 0])
     if not (-1e-9 * T <= h < float("inf")):
         return ["max_euler_step_cb returned h = %r, expected a finite step h >= 0 (characteristic time %.3g)" % (h, T)]
     hq = Fraction(h)
